@@ -537,10 +537,12 @@ def run (cfg : Cfg) : Nat → Prog → PState → Out
     | .startOfInput => if s.pos = 0 then .ok s else .err s
     | .endOfInput => if s.pos = bLen s.input then .ok s else .err s
     | .stackPeek =>
+      if reachedCallLimit s then .err s else
       match s.stack.cache.head? with
       | none => .panic                                       -- "peek was called on empty stack"
       | some str => terminal s (posMatchString s.input s.pos str) (some (.sens str))
     | .stackPop =>
+      if reachedCallLimit s then .err s else
       match Stack.pop s.stack with
       | none => .panic
       | some (_, none) => .panic                             -- "pop was called on empty stack"
